@@ -263,6 +263,9 @@ func RunWorker(a WorkerArgs) *WorkerReport {
 
 func confirmAndShrink(plan *Plan, out *RunOut, seed uint64, a WorkerArgs, opt RunOpt) (*ViolationReport, string) {
 	class := out.Viol.Class
+	if out.Pinned != nil {
+		plan = out.Pinned
+	}
 	// determinism: the recorded tape must reproduce the same violation class
 	re := Execute(plan.Clone(), simrt.ReplayTape(out.Tape), opt)
 	if re.Viol == nil || re.Viol.Class != class {
